@@ -110,18 +110,19 @@ Print Assumptions c04_restart_shorter_refuted.
     starts without.  Deleting the -wal file when the last connection closes is
     not modelled.
 
-    [acked_sync_restores_sessions]: for /repo HEAD (all four flags true) every
+    [acked_sync_restores_sessions]: for /repo HEAD (all five flags true) every
     acknowledgement of every session restores exactly the source, for every
-    history satisfying [steps_window], which excludes two interleavings, each
-    REFUTED below with its history:
-    - [catching_up]: a WAL restart while a re-opened session that took read mark
-      0 has copied a budgeted chunk (lastSyncedWALOffset > 0) but not yet
-      reached the end of the live generation ([reopen_catchup_restart_refuted]);
-    - [kill_ok]: the death of the process between a post-checkpoint copy that
-      ran over a WAL restarted under uncopied frames (the F16 interleaving) and
-      the boundary snapshot that follows it ([kill_after_lost_post_copy_refuted]).
-    F2 itself is the refutation for [freshrule = false]
-    ([reopen_restart_shorter_refuted]). *)
+    history satisfying [steps_window], which now excludes one interleaving
+    only (plus the error exit [LsBumpFail]), REFUTED below with its history:
+    - [kill_ok] (F20, model-level, not reproduced on the implementation): the
+      death of the process between a post-checkpoint copy that ran over a WAL
+      restarted under uncopied frames (the F16 interleaving) and the boundary
+      snapshot that follows it ([kill_after_lost_post_copy_refuted]).
+    Histories without kill need no side condition (Properties/C01.v).
+    Repaired defects as refutations of the earlier rules: F2
+    ([reopen_restart_shorter_refuted], freshrule = false) and F18
+    ([reopen_catchup_restart_refuted], reachrule = false: the rule of 3b58009
+    stopped applying after the first budgeted chunk of a re-opened session). *)
 From Coq Require Import Arith.
 From LS Require Db.Machine Db.MachineProofs.
 
@@ -129,9 +130,9 @@ Theorem acked_sync_restores_sessions :
   forall (data : Type) (zero : data) (lock : N)
          (s0 : Machine.state data) (ls : list (Machine.label data)) (s : Machine.state data),
   Machine.init_ok data zero lock s0 ->
-  Machine.run data lock true true true true s0 ls = Some s ->
-  Machine.steps_ok data lock true true true true s0 ls ->
-  Machine.steps_window data lock true true true true s0 ls ->
+  Machine.run data lock true true true true true s0 ls = Some s ->
+  Machine.steps_ok data lock true true true true true s0 ls ->
+  Machine.steps_window data lock true true true true true s0 ls ->
   forall n im b, In (n, im, b) (Machine.acks data s) ->
   Image.img_eq data (Image.restore data zero lock (firstn n (Machine.l0 data s))) im.
 Proof. exact MachineProofs.acked_sync_restores_head. Qed.
@@ -143,28 +144,28 @@ Print Assumptions acked_sync_restores_sessions.
     header and the next acknowledgement misses the frame *)
 Theorem reopen_restart_shorter_refuted :
   exists (s0 : Machine.state N) ls s n im b,
-    Machine.init_ok N 0%N 1000%N s0 /\ Machine.run N 1000%N true true true false s0 ls = Some s /\
-    Machine.steps_ok N 1000%N true true true false s0 ls /\
+    Machine.init_ok N 0%N 1000%N s0 /\ Machine.run N 1000%N true true true false true s0 ls = Some s /\
+    Machine.steps_ok N 1000%N true true true false true s0 ls /\
     In (n, im, b) (Machine.acks N s) /\
     ~ Image.img_eq N (Image.restore N 0%N 1000%N (firstn n (Machine.l0 N s))) im.
 Proof. exact MachineProofs.reopen_restart_shorter_refuted. Qed.
 Print Assumptions reopen_restart_shorter_refuted.
 
-(** /repo HEAD without [steps_window], first excluded interleaving *)
+(** F18, repaired by c55c7c6: the fresh-session rule of 3b58009 alone *)
 Theorem reopen_catchup_restart_refuted :
   exists (s0 : Machine.state N) ls s n im b,
-    Machine.init_ok N 0%N 1000%N s0 /\ Machine.run N 1000%N true true true true s0 ls = Some s /\
-    Machine.steps_ok N 1000%N true true true true s0 ls /\
+    Machine.init_ok N 0%N 1000%N s0 /\ Machine.run N 1000%N true true true true false s0 ls = Some s /\
+    Machine.steps_ok N 1000%N true true true true false s0 ls /\
     In (n, im, b) (Machine.acks N s) /\
     ~ Image.img_eq N (Image.restore N 0%N 1000%N (firstn n (Machine.l0 N s))) im.
 Proof. exact MachineProofs.reopen_catchup_restart_refuted. Qed.
 Print Assumptions reopen_catchup_restart_refuted.
 
-(** /repo HEAD without [steps_window], second excluded interleaving *)
+(** /repo HEAD without [steps_window]: the one excluded interleaving (F20) *)
 Theorem kill_after_lost_post_copy_refuted :
   exists (s0 : Machine.state N) ls s n im b,
-    Machine.init_ok N 0%N 1000%N s0 /\ Machine.run N 1000%N true true true true s0 ls = Some s /\
-    Machine.steps_ok N 1000%N true true true true s0 ls /\
+    Machine.init_ok N 0%N 1000%N s0 /\ Machine.run N 1000%N true true true true true s0 ls = Some s /\
+    Machine.steps_ok N 1000%N true true true true true s0 ls /\
     In (n, im, b) (Machine.acks N s) /\
     ~ Image.img_eq N (Image.restore N 0%N 1000%N (firstn n (Machine.l0 N s))) im.
 Proof. exact MachineProofs.kill_after_lost_post_copy_refuted. Qed.
@@ -173,7 +174,7 @@ Print Assumptions kill_after_lost_post_copy_refuted.
 (** non-vacuity: the F2 history under /repo HEAD satisfies the hypotheses and
     restores the source ([MachineProofs.sess_run]) *)
 Example sessions_example :
-  forall s, Machine.run N 1000%N true true true true MachineProofs.ex_init MachineProofs.sess_steps = Some s ->
+  forall s, Machine.run N 1000%N true true true true true MachineProofs.ex_init MachineProofs.sess_steps = Some s ->
   forall n im b, In (n, im, b) (Machine.acks N s) ->
   Image.img_eq N (Image.restore N 0%N 1000%N (firstn n (Machine.l0 N s))) im.
 Proof.
